@@ -46,7 +46,21 @@ def _rx(a):
 
 CUBE_ROTS = _cube_rotations()
 GENERIC_ROTS = [_quat_rot(1, 2, 2, 4), _quat_rot(3, 1, -2, 1), _rz(math.pi / 6), _rx(0.7) @ _rz(1.1)]
-ROTS = CUBE_ROTS + GENERIC_ROTS  # 28; index 0 = identity
+
+
+def _axis_angle(axis, a):
+    axis = np.asarray(axis, dtype=float)
+    axis = axis / np.linalg.norm(axis)
+    K = np.array([[0, -axis[2], axis[1]], [axis[2], 0, -axis[0]], [-axis[1], axis[0], 0]])
+    return np.eye(3) + math.sin(a) * K + (1 - math.cos(a)) * (K @ K)
+
+
+# nearly-but-not-exactly aligned orientations: they sit just off the sign/zero boundaries of the case
+# analyses and inside the range where tolerance guards (eps tests on 1-a^2, on |d_xy|, ...) decide
+NEAR_ROTS = [_axis_angle([1, 1, 0], 1e-6), CUBE_ROTS[7] @ _axis_angle([1, 0, 0], 3e-5),
+             _axis_angle([0.3, -1, 0.2], 1e-8) @ CUBE_ROTS[13], _axis_angle([0, 1, 0.5], 2e-3)]
+ROTS = CUBE_ROTS + GENERIC_ROTS + NEAR_ROTS  # 32; index 0 = identity
+N_GENERIC_END = len(CUBE_ROTS) + len(GENERIC_ROTS)
 N_CUBE = len(CUBE_ROTS)
 
 OFFSETS = [np.zeros(3), np.array([1000.0, 0.0, 0.0]), np.array([-300.0, 500.0, 700.0]),
@@ -131,13 +145,18 @@ def _skew():
                      [0.3, 0.4, 0.4], [-0.3, -0.3, -0.4], [0.2, -0.2, -0.5]], dtype=float)
 
 
+def _offtetra():
+    # tetrahedron that is far off-centre in its own frame (frame origin outside the shape)
+    return _tetra() * 0.6 + np.array([1.5, 0.5, -0.25])
+
+
 _MESH_CACHE = {}
 
 
 def mesh_data(name):
     if name not in _MESH_CACHE:
         v = {"tetra": _tetra, "octa": _octa, "cube": _cube, "icosa": _icosa, "icosphere": _icosphere,
-             "skew": _skew}[name]()
+             "skew": _skew, "offtetra": _offtetra}[name]()
         v = np.ascontiguousarray(v, dtype=float)
         _MESH_CACHE[name] = (v, _triangulate(v).astype(np.int64))
     return _MESH_CACHE[name]
@@ -154,8 +173,8 @@ SIZES = {
     "box": [(1.0, 0.8, 0.6), (0.02, 0.01, 0.03), (100.0, 50.0, 70.0), (1.0, 0.5, 0.25), (1.0, 1.0, 1.0)],
     "disk": [0.5, 0.01, 50.0, 1.0],
     "ellipse": [(0.5, 0.3), (0.02, 0.01), (50.0, 20.0), (1.0, 0.25)],
-    "mesh": [("icosa", 1.0), ("tetra", 0.02), ("cube", 60.0), ("icosphere", 1.0), ("octa", 1.0), ("skew", 1.0)],
-    "hull": [("skew", 1.0), ("tetra", 0.02), ("cube", 60.0), ("icosphere", 1.0), ("octa", 1.0), ("icosa", 1.0)],
+    "mesh": [("icosa", 1.0), ("tetra", 0.02), ("cube", 60.0), ("icosphere", 1.0), ("octa", 1.0), ("skew", 1.0), ("offtetra", 1.0)],
+    "hull": [("skew", 1.0), ("tetra", 0.02), ("cube", 60.0), ("icosphere", 1.0), ("octa", 1.0), ("icosa", 1.0), ("offtetra", 1.0)],
 }
 
 
